@@ -261,3 +261,59 @@ Proof.
   - rewrite Hr. cbn [bind]. apply (IH s' k' HI'). lia.
 Qed.
 End Loop.
+
+(* ---------------------------------------------------------------- membership in a sorted list *)
+
+Lemma vs_rank_zero_of_ge a t x : sorted_le (a :: t) -> x <= a -> vs_rank t x = 0.
+Proof.
+  intros Hs Hx. apply vs_rank_char; [apply (sorted_le_tail _ _ Hs)|lia|intros; lia|].
+  intros k _ Hk. specialize (Hs 0 (k + 1)). rewrite !nthd_cons, lenN_cons in Hs.
+  replace (0 =? 0) with true in Hs by lia. replace (k + 1 =? 0) with false in Hs by lia.
+  replace (k + 1 - 1) with k in Hs by lia. specialize (Hs ltac:(lia) ltac:(lia)). lia.
+Qed.
+
+Lemma vs_get_sorted l x : sorted_le l ->
+  vs_get l x = if vs_rank l x <? lenN l then nthd l (vs_rank l x) =? x else false.
+Proof.
+  unfold vs_get. induction l as [|a t IH]; intros Hs; [reflexivity|].
+  cbn [existsb vs_rank]. rewrite lenN_cons. specialize (IH (sorted_le_tail _ _ Hs)).
+  destruct (N.ltb_spec a x) as [Hax|Hax].
+  - replace (x =? a) with false by lia. cbn [orb]. rewrite IH, nthd_cons.
+    replace (1 + vs_rank t x =? 0) with false by lia. replace (1 + vs_rank t x - 1) with (vs_rank t x) by lia.
+    destruct (N.ltb_spec (vs_rank t x) (lenN t)); [replace (1 + vs_rank t x <? lenN t + 1) with true by lia|replace (1 + vs_rank t x <? lenN t + 1) with false by lia]; reflexivity.
+  - pose proof (vs_rank_zero_of_ge a t x Hs Hax) as Hz. rewrite Hz in *.
+    replace (0 + 0 <? lenN t + 1) with true by lia. rewrite nthd_cons. replace (0 + 0 =? 0) with true by lia.
+    destruct (N.eqb_spec x a) as [->|Hne]; [cbn [orb]; symmetry; apply N.eqb_refl|].
+    cbn [orb]. rewrite IH. replace (a =? x) with false by lia.
+    destruct (N.ltb_spec 0 (lenN t)) as [Hl|Hl]; [|reflexivity].
+    specialize (Hs 0 1). rewrite !nthd_cons, lenN_cons in Hs. replace (0 =? 0) with true in Hs by lia.
+    replace (1 =? 0) with false in Hs by lia. replace (1 - 1) with 0 in Hs by lia.
+    specialize (Hs ltac:(lia) ltac:(lia)). apply N.eqb_neq. lia.
+Qed.
+
+(* comparing two numbers with the same quotient by their remainders *)
+Lemma mod_cmp a b P : 0 < P -> a / P = b / P ->
+  (a mod P <=? b mod P) = (a <=? b) /\ (a mod P <? b mod P) = (a <? b) /\ (a mod P =? b mod P) = (a =? b).
+Proof.
+  intros HP Hq. pose proof (N.div_mod a P ltac:(lia)) as Ha. pose proof (N.div_mod b P ltac:(lia)) as Hb.
+  rewrite Hq in Ha. set (q := b / P) in *. set (ra := a mod P) in *. set (rb := b mod P) in *.
+  repeat split; [destruct (N.leb_spec ra rb), (N.leb_spec a b)|destruct (N.ltb_spec ra rb), (N.ltb_spec a b)|destruct (N.eqb_spec ra rb), (N.eqb_spec a b)]; try reflexivity; nia.
+Qed.
+
+Lemma vs_rank_all l x : sorted_le l -> (forall i, i < lenN l -> nthd l i < x) -> vs_rank l x = lenN l.
+Proof. intros Hs Hx. apply vs_rank_char; [exact Hs|lia|exact Hx|intros; lia]. Qed.
+
+(* in a strictly increasing list the i-th value is at least i, so at most x values are below x *)
+Lemma sorted_lt_ge_index l i : sorted_lt l -> i < lenN l -> i <= nthd l i.
+Proof.
+  intros Hs. rewrite <- (N2Nat.id i). induction (N.to_nat i) as [|k IH]; intros Hi; [lia|].
+  specialize (IH ltac:(lia)). specialize (Hs (N.of_nat k) (N.of_nat (S k)) ltac:(lia) Hi). lia.
+Qed.
+
+Lemma vs_rank_le_arg l x : sorted_lt l -> vs_rank l x <= x.
+Proof.
+  intros Hs. destruct (N.eq_dec (vs_rank l x) 0) as [->|Hne]; [lia|].
+  pose proof (vs_rank_le_len l x).
+  pose proof (vs_rank_lt l x (vs_rank l x - 1) (sorted_lt_le _ Hs) ltac:(lia)).
+  pose proof (sorted_lt_ge_index l (vs_rank l x - 1) Hs ltac:(lia)). lia.
+Qed.
